@@ -146,6 +146,10 @@ func (c *Checker) key(bech32 string) string {
 		return k
 	}
 	if a, err := sdk.AccAddressFromBech32(bech32); err == nil {
+		// the other valid spelling (all upper case) of a known account
+		if k, ok := c.acct[a.String()]; ok {
+			return k
+		}
 		return fmt.Sprintf("0x%x", []byte(a))
 	}
 	return "?" + bech32
